@@ -141,6 +141,24 @@ def eval_resume(ctx, N, screening=False):
         if max(f1) != N1:
             continue
         N2 = N - N1
+        if N1 % 2 == 0:
+            # looking at the saved state before continuing from it (plots, derived quantities) is an observation too
+            import matplotlib.pyplot as plt
+
+            before_ = {nm: np.array(getattr(sol1.tdgl_data, nm), copy=True) for nm in runs.FIELDS}
+            for meth in ("plot_scalar_potential", "plot_order_parameter", "plot_currents", "plot_vorticity"):
+                try:
+                    getattr(sol1, meth)()
+                except Exception:  # noqa: a plot that cannot be drawn here is not this property's business
+                    ctx.count(f"plot_raised:{meth}")
+                plt.close("all")
+            _ = sol1.current_density, sol1.dynamics.voltage() if sol1.dynamics.mu is not None else None
+            ctx.count("seeds_plotted_before_continuing")
+            touched_ = [nm for nm in runs.FIELDS if not np.array_equal(before_[nm], np.asarray(getattr(sol1.tdgl_data, nm)))]
+            if touched_:
+                rp = dict(N1=N1, fields=touched_)
+                ctx.fail("observer-changed-saved-state", f"plotting / post-processing a solution changed its stored fields {touched_} (it is then used as the seed of the continuation)", rp)
+                first = first or dict(key="observer-changed-saved-state", what=str(touched_), **rp)
         opts2 = runs.options(save_every=1, solve_time=dt * (N2 - 0.5), output_file=os.path.join(str(ctx.work), f"part2_{N1}.h5"), progress_interval=10**9, **o)
         sol2 = tdgl.solve(dev, opts2, seed_solution=sol1, **kw)
         f2 = {fr["step"]: fr for fr in runs.parse_h5(sol2.path)[0]}
